@@ -523,6 +523,11 @@ def run_conc(pid, tier, seed, replay):
         return job_trace(j[0], j[1], j[2], d, j[3], lin=True)
     for job, res in parallel(one, jobs, workers=10):
         absorb_lin(run, job, res)
+    if pid == "C03":
+        job, res = job_trace(["conc-casuniq", "--threads", 8, "--ops", 50000 if quick else 300000, "--rounds", 3 if quick else 10], "CountTrace",
+                             "casuniq.ndjson", d, "CAS uniqueness across keys, OS threads")
+        run.add_result(job, res)
+        run.traces += 1
     if pid == "C04":
         # the counting clauses on the memcrsd binary: 8 connections at once on the same keys, spread over the listener
         # threads (current-thread) / workers (multi-thread); judged by CountTrace
@@ -694,10 +699,18 @@ def conc_extra(pid, tier, seed):
         return job_trace(j[0], j[1], j[2], run.dir, j[3], lin=True)
     for job, res in parallel(one, jobs, workers=8):
         absorb_lin(run, job, res)
+    if pid == "C02":
+        # the CAS counter is shared by all keys: 8 free-running threads, each storing its own key (no acknowledged CAS is one
+        # the key has carried before; a superseded CAS is never accepted) - judged by CountTrace
+        job, res = job_trace(["conc-casuniq", "--threads", 8, "--ops", 50000 if quick else 300000, "--rounds", 3 if quick else 10], "CountTrace",
+                             "casuniq.ndjson", run.dir, "CAS uniqueness across keys, OS threads")
+        run.add_result(job, res)
+        run.traces += 1
+        extra["cas_uniqueness_rounds"] = run.cov.get("cas.unique.across.keys", 0)
     bad = []
     for (job, res, v) in run.bad:
         if len(bad) < 4:
-            path = write_replay(pid, {"driver": job.get("driver"), "args": job.get("args"), "spec": "MemcLin", "property": pid, "violation": v})
+            path = write_replay(pid, {"driver": job.get("driver"), "args": job.get("args"), "spec": job.get("spec", "MemcLin"), "property": pid, "violation": v})
             log("VIOLATION property=%s replay=%s" % (pid, path))
             log("  %s: %s" % (job.get("desc"), json.dumps(v)[:200]))
         bad.append(v)
